@@ -464,7 +464,8 @@ fn flat(fields: &[FieldSpec]) -> Vec<u8> {
 }
 
 fn case_strategy(all_positions: bool) -> impl Strategy<Value = Case> {
-    let mac = || prop::collection::vec(any::<u8>(), 10..=64);
+    // (an earlier MAC of zero octets is still digested, as its two-octet length)
+    let mac = || prop_oneof![12 => prop::collection::vec(any::<u8>(), 10..=64), 1 => Just(Vec::new()), 1 => prop::collection::vec(any::<u8>(), 1..10)];
     (
         (any::<u16>(), any::<u16>(), gen_name(), prop::collection::vec((gen_name(), valid_rdata(), 0u32..100000), 0..4), any::<bool>()),
         (
